@@ -43,8 +43,10 @@ TInit == /\ tid \in 1..Len(Recs)
          /\ ent = 0 /\ lib = "observed" /\ hist = <<>>
          /\ verdict = <<>>
 
-Finish(clause) ==
-  /\ verdict' = <<clause, "na", "any">>
+(* class: whose call broke the clause - "fn1" (the routine under test), "fn2" (its   *)
+(* partner), "any" otherwise; the harness books the violation to that routine        *)
+Finish(clause, who) ==
+  /\ verdict' = <<clause, "na", who>>
   /\ PrintT(VLine(tid, verdict'))
 
 TEvent ==
@@ -56,12 +58,13 @@ TEvent ==
      IN /\ l' = l + 1
         /\ hist' = Append(hist, e)
         /\ g' = e.ga /\ py' = e.pa
-        /\ IF cl = "ok" THEN UNCHANGED verdict ELSE Finish(cl)
+        /\ IF cl = "ok" THEN UNCHANGED verdict
+           ELSE Finish(cl, IF env = "" /\ IsCall(e) THEN "fn" \o ToString(e.fn) ELSE "any")
   /\ UNCHANGED <<tid, ent, lib>>
 
 TFinal ==
   /\ verdict = <<>> /\ l = Len(Recs[tid].events)
-  /\ Finish("ok")
+  /\ Finish("ok", "any")
   /\ UNCHANGED <<tid, l, g, py, ent, lib, hist>>
 
 TNext == TEvent \/ TFinal
